@@ -122,6 +122,62 @@ reg("C17", BE + "consume_input=False: GLR tree set vs union of reference "
     "trusted: chart reference with prefix roots; intervention-based "
     "attribution for STOP-DROPPED", "DESIGN.md section 8 C17")
 
+reg("C11", BE + "error recovery on every string (all corruptions of all short "
+    "sentences) for five strategies, LR and GLR: termination by step budget, "
+    "span discipline, tree validity, character coverage, sentences unaffected",
+    "Exhaustive over windows of the k<=3 space (quick) / the whole space "
+    "(thorough), lexical-overlap maps included.",
+    "trusted: structural oracles; chart for sentences", "DESIGN.md section 8 C11")
+reg("C12", "explicit-state breadth-first exploration of file-system histories "
+    "on the real code (builds with 8 option sets incl. pglr compile, edits and "
+    "touches of root / imported / second-level imported files, cache deletion, "
+    "interrupted builds) with a logical mtime clock, plus exhaustive "
+    "enumeration of every crash point of the cache write through a file-system "
+    "interposer, plus the save/load round trip on every small grammar",
+    "After every build in every reached state the parser is compared with a "
+    "no-cache oracle on every probe input; depth 3 (quick) / 4 (thorough); "
+    "every operation boundary and byte offset of the write in two visibility "
+    "variants.",
+    "process crashes only; equal mtimes excluded; cause oracle for the "
+    "options-not-in-cache finding", "DESIGN.md section 8 C12")
+reg("C15", "exhaustive exploration of API operation histories on shared "
+    "Grammar/Parser objects (19 events, no state pruning) executed by the real "
+    "code, with a fresh-object oracle after every history",
+    "All histories up to depth 3 and a fully enumerated residue class of depth "
+    "4 (quick); depth 4 + class of depth 5 (thorough), three grammars.",
+    "oracle: fresh Grammar + fresh parser; interrupted construction simulated "
+    "by the harness", "DESIGN.md section 8 C15")
+reg("C16", "exhaustive enumeration of the iteration orders Python's set can "
+    "give the grammar's terminals (controlled symbol hashes, one fresh process "
+    "per STOP/EMPTY placement, colliding hashes included) plus a "
+    "PYTHONHASHSEED sweep in fresh interpreters; digest equality of tables, "
+    "structural conflict lists and ordered forests",
+    "Every grammar with <= 3 productions under every relative order of its "
+    "lookahead-set elements; example grammars and parglare's own grammar under "
+    "the seed sweep.",
+    "assumes sets of grammar symbols are the only hash-ordered containers on "
+    "these paths (confirmed by the seed sweep)", "DESIGN.md section 8 C16")
+reg("C18", BE + "call discipline and effect of the dynamic filter for every "
+    "subset of marked productions/terminals, three filter families, LR and GLR",
+    "All mark subsets for 2 operators, window/all for 3; every expression up "
+    "to the operator bound; every operator table for the precedence filter.",
+    "trusted: no-filter forest, precedence climbing", "DESIGN.md section 8 C18")
+reg("C19", BE + "every short string-terminal text inline vs declared, and "
+    "every short text x 4 KEYWORD regexes, against a literal/word-boundary "
+    "reference scanner",
+    "All texts of length <= 2 and a window of length 3 (quick) / all of length "
+    "3 (thorough) over 15 characters; ignore_case on/off.",
+    "texts needing escape sequences: inline/declared consistency only (docs "
+    "do not define escapes)", "DESIGN.md section 8 C19")
+reg("C20", BE + "every split of a base grammar over 2-3 files (chain, fan-out, "
+    "diamond, mutual import; aliases; shared terminal file; import order; "
+    "other-path references; override) on real files vs the flattened grammar "
+    "and the chart",
+    "A fully enumerated residue class of the three-nonterminal space (1/400 "
+    "quick, 1/25 thorough) x all variants x all inputs <= 4.",
+    "trusted: flattened grammar through parglare (validated by C01/C04) and "
+    "the chart", "DESIGN.md section 8 C20")
+
 NOT_YET = "check not built yet in this round (planned, see DESIGN.md section 8/12)"
 
 checks = []
